@@ -178,6 +178,18 @@ def run_property(prop: str, tier: str = "quick", replay: Optional[str] = None, t
     results = solve.discharge(eng, all_obs, timeout=per_timeout, backends=backends, tag=prop)
     solve_time = time.time() - t_solve
 
+    # obligations decided by an extra check (e.g. the effect checker): named, counted, ledgered like the others
+    for x in extra_results:
+        for o in x.get("obligations", []) if isinstance(x, dict) else []:
+            r = solve.Result(o["name"])
+            r.status = "unsat" if o["ok"] else "sat"
+            r.backend = x.get("check", "extra")
+            r.kind = "effect"
+            r.func = o.get("function", "")
+            r.detail = o.get("detail", "")
+            results.append(r)
+        if isinstance(x, dict) and x.get("obligations"):
+            x["violations"] = []  # reported through the obligations
     real = [r for r in results if r.kind != "vacuity"]
     vac = [r for r in results if r.kind == "vacuity"]
     vac_bad = [r for r in vac if r.status == "unsat"]
